@@ -270,8 +270,33 @@ isal_verif_xgetbv:
 	RESTORE_ALL
 	ret
 
+; Fast path for the "stalled runner" fault: while g_sched_skip > 0, visits of the scheduling point whose return address is
+; g_sched_skip_site (the spin-loop compare) return at once, so that a waiter can poll millions of times at native speed
+; without the runner making a step. Flags and rax are preserved.
+global g_sched_skip:data
+global g_sched_skip_site:data
+section .data
+align 8
+g_sched_skip:      dq 0
+g_sched_skip_site: dq 0
+section .text
+
 global isal_verif_sched_point:function
 isal_verif_sched_point:
+	pushfq
+	push	rax
+	mov	rax, [rsp + 16]
+	cmp	rax, [rel g_sched_skip_site]
+	jne	.slow
+	cmp	qword [rel g_sched_skip], 0
+	je	.slow
+	dec	qword [rel g_sched_skip]
+	pop	rax
+	popfq
+	ret
+.slow:
+	pop	rax
+	popfq
 	SAVE_ALL
 	mov	rdi, [rbp + S_RET]
 	mov	rsi, rbp               ; saved-register frame (the C side may emulate the next instruction and skip it)
